@@ -216,7 +216,8 @@ def restart_head(ctx, rid="C02.R8"):
     heads = set()
     for env in envs:
         e2 = dict(env)
-        e2.update({"self.req.version": (1, 1), "self.req.method": "GET", "self.version": "gunicorn/0"})
+        # (the worker has forced the connection to close: the Connection line does not depend on the request)
+        e2.update({"self.req.version": (1, 1), "self.req.method": "GET", "self.version": "gunicorn/0", "self.must_close": True})
         outs = Explorer(f_sh, tracked=tracked, atom_of=atom_of, inline_depth=3).run(f_sh.cfg.entry, e2, probes={node.id: ("head", lambda ex_, env_: ex_.ev(call.args[1], env_))})
         for o in outs:
             for k, v in o.events:
